@@ -841,14 +841,39 @@ func collectFacts(files map[string]*ast.File) *facts {
 	fc := &facts{AllocSites: map[string][]string{}, Fingerprints: map[string]string{}}
 	type key struct{ pkg, name string }
 	globals := map[key]bool{}
+	refTyped := map[key]bool{} // slices, maps, pointers, channels, funcs: a copy of the value aliases the data
 	for _, f := range files {
 		for _, d := range f.Decls {
 			if gd, ok := d.(*ast.GenDecl); ok && gd.Tok == token.VAR {
 				for _, sp := range gd.Specs {
-					for _, n := range sp.(*ast.ValueSpec).Names {
+					vs := sp.(*ast.ValueSpec)
+					for i, n := range vs.Names {
 						if n.Name != "_" {
 							globals[key{f.Name.Name, n.Name}] = true
 							fc.Globals = append(fc.Globals, f.Name.Name+"."+n.Name)
+							var ty ast.Expr = vs.Type
+							if ty == nil && i < len(vs.Values) {
+								switch v := vs.Values[i].(type) {
+								case *ast.CompositeLit:
+									ty = v.Type
+								case *ast.UnaryExpr:
+									if v.Op == token.AND {
+										refTyped[key{f.Name.Name, n.Name}] = true
+									}
+								case *ast.CallExpr:
+									if fn := ctext(v.Fun); fn == "make" || fn == "new" {
+										refTyped[key{f.Name.Name, n.Name}] = true
+									}
+								}
+							}
+							switch t := ty.(type) {
+							case *ast.ArrayType:
+								if t.Len == nil {
+									refTyped[key{f.Name.Name, n.Name}] = true
+								}
+							case *ast.MapType, *ast.StarExpr, *ast.ChanType, *ast.FuncType:
+								refTyped[key{f.Name.Name, n.Name}] = true
+							}
 						}
 					}
 				}
@@ -945,6 +970,28 @@ func collectFacts(files map[string]*ast.File) *facts {
 				return fmt.Sprintf("%s:%d", filepath.Base(fname), p.Line)
 			}
 			written := map[ast.Node]bool{}
+			// contexts in which the bare name of a reference-typed global does not create an alias
+			safeUse := map[*ast.Ident]bool{}
+			ast.Inspect(fd.Body, func(n ast.Node) bool {
+				mark := func(e ast.Expr) {
+					if id, ok := e.(*ast.Ident); ok {
+						safeUse[id] = true
+					}
+				}
+				switch t := n.(type) {
+				case *ast.IndexExpr:
+					mark(t.X)
+				case *ast.RangeStmt:
+					mark(t.X)
+				case *ast.CallExpr:
+					if fn := ctext(t.Fun); fn == "len" || fn == "cap" {
+						for _, a := range t.Args {
+							mark(a)
+						}
+					}
+				}
+				return true
+			})
 			add := func(v, kind string, n ast.Node) {
 				fc.Accesses = append(fc.Accesses, access{Var: v, Func: full, Kind: kind, Pos: pos(n)})
 			}
@@ -996,8 +1043,10 @@ func collectFacts(files map[string]*ast.File) *facts {
 						allocs = append(allocs, "append "+ctext(t.Args[0]))
 					case fnTxt == "string" || fnTxt == "[]byte" || fnTxt == "[]rune":
 						allocs = append(allocs, "conv "+fnTxt)
-					case strings.HasPrefix(fnTxt, "fmt."):
-						allocs = append(allocs, "call "+fnTxt)
+					default:
+						if !noAllocBuiltin[fnTxt] {
+							allocs = append(allocs, "call "+fnTxt)
+						}
 					}
 				case *ast.FuncLit:
 					allocs = append(allocs, "closure")
@@ -1012,7 +1061,11 @@ func collectFacts(files map[string]*ast.File) *facts {
 					}
 				case *ast.Ident:
 					if g, ok := isGlobal(t); ok {
-						add(g, "read", t)
+						if refTyped[key{pkg, t.Name}] && !safeUse[t] {
+							add(g, "addr-taken", t) // the value is copied: an alias of the shared data escapes
+						} else {
+							add(g, "read", t)
+						}
 					}
 				}
 				return true
@@ -1033,6 +1086,11 @@ func collectFacts(files map[string]*ast.File) *facts {
 	})
 	return fc
 }
+
+// builtins and conversions between basic types: never allocate
+var noAllocBuiltin = map[string]bool{"len": true, "cap": true, "copy": true, "panic": true, "recover": true, "delete": true, "min": true, "max": true,
+	"int": true, "int8": true, "int16": true, "int32": true, "int64": true, "uint": true, "uint8": true, "uint16": true, "uint32": true, "uint64": true,
+	"byte": true, "rune": true, "float64": true, "float32": true, "bool": true, "uintptr": true, "TokenType": true}
 
 // ---------------------------------------------------------------- emit
 
@@ -1334,6 +1392,68 @@ func main() {
 	}
 	f.WriteString("].\n")
 	os.WriteFile(filepath.Join(*out, "GenFp.v"), f.Bytes(), 0o644)
+
+	// ---- GenFacts.v
+	var g bytes.Buffer
+	g.WriteString("(* GENERATED by tools/rl2v from /repo on every run -- do not edit, do not commit *)\n")
+	g.WriteString("From Coq Require Import List String.\nImport ListNotations.\nFrom Rjson Require Import Footprint.\nLocal Open Scope string_scope.\n\n")
+	g.WriteString("Definition gen_globals : list string := [\n")
+	for i, n := range fc.Globals {
+		if i > 0 {
+			g.WriteString(";\n")
+		}
+		fmt.Fprintf(&g, " %q", n)
+	}
+	g.WriteString("].\n")
+	coqKind := func(k string) string {
+		switch {
+		case k == "read":
+			return "AKRead"
+		case k == "assigned":
+			return "AKAssigned"
+		case k == "incdec":
+			return "AKIncDec"
+		case k == "addr-taken":
+			return "AKAddrTaken"
+		case k == "sliced":
+			return "AKSliced"
+		case strings.HasPrefix(k, "passed:"):
+			return fmt.Sprintf("(AKPassed %q)", k[7:])
+		case strings.HasPrefix(k, "method:"):
+			return fmt.Sprintf("(AKMethod %q)", k[7:])
+		}
+		return "AKAssigned"
+	}
+	g.WriteString("Definition gen_accesses : list (string * string * akind) := [\n")
+	for i, a := range fc.Accesses {
+		if i > 0 {
+			g.WriteString(";\n")
+		}
+		fmt.Fprintf(&g, " (%q, %q, %s)", a.Var, a.Func+"@"+a.Pos, coqKind(a.Kind))
+	}
+	g.WriteString("].\n")
+	os.WriteFile(filepath.Join(*out, "GenGlobals.v"), g.Bytes(), 0o644)
+	g.Reset()
+	g.WriteString("(* GENERATED by tools/rl2v from /repo on every run -- do not edit, do not commit *)\n")
+	g.WriteString("From Coq Require Import List String.\nImport ListNotations.\nLocal Open Scope string_scope.\n\n")
+	g.WriteString("Definition gen_alloc_sites : list (string * list string) := [\n")
+	var fns []string
+	for k := range fc.AllocSites {
+		fns = append(fns, k)
+	}
+	sort.Strings(fns)
+	for i, k := range fns {
+		if i > 0 {
+			g.WriteString(";\n")
+		}
+		var p []string
+		for _, s := range fc.AllocSites[k] {
+			p = append(p, "\""+strings.ReplaceAll(s, "\"", "\"\"")+"\"")
+		}
+		fmt.Fprintf(&g, " (%q, [%s])", k, strings.Join(p, "; "))
+	}
+	g.WriteString("].\n")
+	os.WriteFile(filepath.Join(*out, "GenFacts.v"), g.Bytes(), 0o644)
 
 	// ---- JSON for the orchestrator
 	all := map[string]interface{}{"machines": machines, "tables": tb, "facts": fc, "issues": issues}
